@@ -345,6 +345,26 @@ func (e *Env) Exec(sc *Scenario, b *Built, opID string, watchdog time.Duration) 
 			fail(err)
 		case "removepod":
 			fail(e.Cal.RemovePod(ctx, op.Pod))
+		case "capacity":
+			pod := op.Pod
+			if pod == "" {
+				pod = "p1"
+			}
+			cm, err := e.Cal.CalculateCapacity(ctx, e.deployOpts(op.App, pod, op.Nodes, op.Strategy, op.Count, op.Limit, op.Req))
+			fail(err)
+			percap, total := []Event{}, 0
+			if cm != nil && err == nil {
+				names := []string{}
+				for n := range cm.NodeCapacities {
+					names = append(names, n)
+				}
+				sort.Strings(names)
+				for _, n := range names {
+					percap = append(percap, Event{"node": n, "n": clampInt(cm.NodeCapacities[n])})
+				}
+				total = clampInt(cm.Total)
+			}
+			ret["percap"], ret["total"] = percap, total
 		case "fix":
 			nr, err := e.Cal.NodeResource(ctx, op.Nodes[0], true)
 			fail(err)
@@ -364,6 +384,14 @@ func (e *Env) Exec(sc *Scenario, b *Built, opID string, watchdog time.Duration) 
 	case <-time.After(watchdog):
 		return append(evs, Event{"ev": "Return", "op": opID, "kind": op.Kind, "class": "hang", "err": "no return within watchdog"})
 	}
+}
+
+// clampInt keeps "unlimited" capacities (MaxInt) inside what TLC's integers hold.
+func clampInt(n int) int {
+	if n > 1000000 {
+		return 1000000
+	}
+	return n
 }
 
 func class2(err error) string {
